@@ -43,6 +43,26 @@ const FRONT_HOSTS: [&str; 7] = ["a.com", "www.a.com", "x.a.com", "*.a.com", "b.c
 fn pool_dir() -> String {
     std::env::var("VERIF_CERTS").unwrap_or_else(|_| format!("{}/../corpus/certs/c17", env!("CARGO_MANIFEST_DIR")))
 }
+/// A port for this case's listener.  Sōzu binds its listeners with SO_REUSEPORT, so a port handed out by the kernel
+/// (`bind(0)`, then closed) can be bound a second time by another worker of a concurrent black-box run, and the
+/// kernel would then spread our connections over both.  Ports are therefore taken below the ephemeral range (no
+/// `bind(0)` of anybody lands there), from a per-process sequence, and only when a plain bind succeeds (it fails
+/// while any socket, SO_REUSEPORT or not, holds the port).
+fn own_port() -> u16 {
+    use std::sync::atomic::{AtomicU32, Ordering};
+    static NEXT: AtomicU32 = AtomicU32::new(0);
+    let pid = std::process::id();
+    for _ in 0..2000 {
+        let k = NEXT.fetch_add(1, Ordering::SeqCst);
+        let port = 10000 + ((pid.wrapping_mul(131) + k.wrapping_mul(7)) % 20000) as u16;
+        if let Ok(l) = std::net::TcpListener::bind(("127.0.0.1", port)) {
+            drop(l);
+            return port;
+        }
+    }
+    h2bb::free_port()
+}
+
 fn s(b: &[u8]) -> String {
     String::from_utf8(b.to_vec()).expect("case strings are UTF-8")
 }
@@ -182,7 +202,7 @@ fn spec_covered(authority: &[u8], names: &[String]) -> bool {
 fn run_with(pool: &[(String, String)], case: &Case, out: &mut Out) {
     let strict = case.ops.first().filter(|o| o.name == "listen").map(|o| o.args[0].n() == 1).unwrap_or(true);
     let mut w = h2bb::start_worker();
-    let front: SocketAddr = format!("127.0.0.1:{}", h2bb::free_port()).parse().unwrap();
+    let front: SocketAddr = format!("127.0.0.1:{}", own_port()).parse().unwrap();
     let fa: SocketAddress = front.into();
     let back_listener = TcpListener::bind("127.0.0.1:0").unwrap();
     let back = back_listener.local_addr().unwrap();
